@@ -5,6 +5,7 @@ growth and first-index-fastest linear indexing) are driven by the same sequence 
 write both holders are expanded from raw state and compared exactly with the model, every read is compared exactly.
 """
 import itertools
+import json
 
 import numpy as np
 
@@ -188,7 +189,7 @@ def _rand_key(rng, shape, write, grow_p=0.25, forms=("int", "int", "int", "int",
             elif c == 1:
                 a = int(rng.integers(0, I))
                 b = int(rng.integers(a + 1, I + 1 + (2 if (write and rng.random() < grow_p) else 0)))
-                key.append({"s": [a, b, None]})
+                key.append({"s": [a, b, None if rng.random() < 0.7 else 1]})
             elif c == 2:
                 key.append({"s": [int(rng.integers(0, I)), None, None]})
             elif c == 3:
@@ -196,7 +197,8 @@ def _rand_key(rng, shape, write, grow_p=0.25, forms=("int", "int", "int", "int",
             else:
                 if I >= 2 and write and rng.random() < grow_p:
                     # a start counted from the end and a stop past the extent: the write grows the mode from that start on
-                    key.append({"s": [-int(rng.integers(1, I + 1)), int(I + rng.integers(1, 3)), None]})
+                    # (the step left out, written out as 1, or 2: the same rule for the start)
+                    key.append({"s": [-int(rng.integers(1, I + 1)), int(I + rng.integers(1, 3)), [None, 1, 2, 1][int(rng.integers(0, 4))]]})
                 elif I >= 2 and rng.random() < 0.3:
                     # bounds that overshoot the extent from the end are clamped to the beginning (NumPy slice semantics)
                     key.append({"s": [[-I - 2, None, None], [-I - 1, max(1, I - 1), None], [-I - 3, -1, None], [None, -1, None]][int(rng.integers(0, 4))]})
@@ -479,6 +481,62 @@ def gen_cases(tier, seed):
         ops.append({"k": "get_region", "key": [{"s": [None, None, None]} for _ in shape]})
         yield {"w": "history", "start": "sparse", "init": init.tolist(), "shape": list(shape), "ops": ops, "so_seed": int(rng.integers(0, 2 ** 31)),
                "forced": ["first-zero", "first-nonzero", "shuffled"][i % 3]}
+
+
+    # catalogue of key forms, one unusual element in one mode, written (scalar / zero / array) and read back: always present, from a
+    # random stream of their own (adding a family here does not move the histories above)
+    rngc = gen.rng_for(seed, ID, tier, "catalogue")
+    for shape in ((5,), (4, 3), (3, 2, 2), (6, 2)) if tier == "quick" else ((5,), (4, 3), (3, 2, 2), (6, 2), (4, 4), (2, 5, 2), (7,)):
+        for d in range(len(shape)):
+            I = shape[d]
+            forms = []
+            if I >= 4:
+                for L in range(4, I + 1):
+                    lo = int(rngc.integers(0, I - L + 1))
+                    mid = list(range(lo + 1, lo + L - 1))
+                    forms.append({"l": [lo] + mid[::-1] + [lo + L - 1]})                    # a run with its interior re-ordered
+                    forms.append({"a": [lo + L - 1] + [int(x) for x in rngc.permutation(mid)] + [lo]})
+            forms += [{"l": [I + 1, 0]}, {"l": [I, I - 1, 0]}, {"a": [I + 2, 1]},                          # first entry past the extent, later ones stored
+                      {"s": [-2, I + 2, None]}, {"s": [-2, I + 2, 1]}, {"s": [-2, I + 3, 2]}, {"s": [-I, I + 1, 2]},  # from the end, growing, every step form
+                      {"s": [1, I + 2, 2]}, {"s": [0, I, 1]}, {"s": [None, None, -1]}, {"s": [I - 1, None, -2]},
+                      {"l": [I - 1, 0]}, {"l": [-1, 0]}, {"l": [0, 0, I - 1]}]
+            for f_ in forms:
+                for others in ("all", "int", "short"):
+                    key = []
+                    for m, Im in enumerate(shape):
+                        if m == d:
+                            key.append(f_)
+                        elif others == "all":
+                            key.append({"s": [None, None, None]})
+                        elif others == "int":
+                            key.append(int(rngc.integers(0, Im)))
+                        else:
+                            key.append({"s": [0, max(1, Im - 1), None]})
+                    init = gen.sparsify(rngc, rngc.choice([1.0, 2.0, -1.0, 3.5], size=shape), "half+")
+                    for rhs in ("scalar", "zero", "array"):
+                        model = Model(init)
+                        op = {"k": "set_region", "key": json.loads(json.dumps(key)), "rhs": "scalar", "v": 7.0 if rhs == "scalar" else 0.0}
+                        if rhs == "array":
+                            try:
+                                kk = _from_end([_key_elem(e) for e in key], model.shape)
+                                m2 = Model(model.M)
+                                m2.grow(_need(kk, None, model.shape))
+                                idx, keep = _resolve(kk, m2.shape)
+                                rshape = tuple(len(i_) for i_, k_ in zip(idx, keep) if k_)
+                            except Exception:  # noqa: BLE001
+                                continue
+                            if not rshape or int(np.prod(rshape)) == 0 or len(set(f_.get("l", f_.get("a", [])))) != len(f_.get("l", f_.get("a", []))):
+                                continue
+                            op = {"k": "set_region", "key": json.loads(json.dumps(key)), "rhs": "array", "v": rngc.choice(VALS, size=rshape).tolist(),
+                                  "holder_rhs": ["ndarray", "tensor"][int(rngc.integers(0, 2))]}
+                        ops = [op, {"k": "get_region", "key": [{"s": [None, None, None]} for _ in shape]}]
+                        rd = {"k": "get_region", "key": json.loads(json.dumps(key))}
+                        h = {"w": "history", "start": "sparse", "init": init.tolist(), "shape": list(shape), "ops": ops, "so_seed": int(rngc.integers(0, 2 ** 31)),
+                             "forced": "catalogue"}
+                        if not _valid_history(h):
+                            continue
+                        h2 = dict(h, ops=ops + [rd])
+                        yield h2 if _valid_history(h2) else h
 
 
 # ------------------------------------------------------------------ execution ------------------
